@@ -27,7 +27,7 @@ impl Deserialize for MIRToStakeCredentials {
                 cbor_event::Len::Len(n) => table.len() < n as usize,
                 cbor_event::Len::Indefinite => true,
             } {
-                if is_break_tag(raw, "MIRToStakeCredentials")? {
+                if is_break_tag(raw, len, "MIRToStakeCredentials")? {
                     break;
                 }
                 let key = Credential::deserialize(raw)?;
